@@ -204,7 +204,7 @@ func makeParams(p *core.Plan, act *actors) *config.Configuration {
 	cr.CRCProposalDraftDataStartHeight = uint32(p.Knob("draftDataHeight", math.MaxUint32))
 	cr.CRClaimDPOSNodeStartHeight = uint32(p.Knob("claimStart", int64(vs+vp)))
 	cr.CRClaimDPOSNodePeriod = uint32(p.Knob("claimPeriod", 8))
-	cr.CRClaimPeriod = uint32(p.Knob("claimPeriodV2", 4))
+	cr.CRClaimPeriod = uint32(p.Knob("claimPeriodV2", 3))
 	cr.ChangeCommitteeNewCRHeight = uint32(p.Knob("newCRHeight", 0))
 	cr.CheckVoteCRCountHeight = 0
 	// as on main net the rectify height equals the withdraw-v1 height (it also gates
